@@ -52,14 +52,22 @@ func checkC05(c *Ctx) {
 	c.R.Floor("decoder access sites", len(an.Order), 30)
 	// P7: goroutine entries
 	n := 0
+	type launch struct {
+		g      *ssa.Go
+		target *ssa.Function
+	}
+	var launches []launch
 	for _, g := range r.GoEntries {
-		target := g.Common().StaticCallee()
-		if target == nil {
-			target = closureOf(g.Common())
-		}
-		if target == nil {
+		if cl := closureOf(g.Common()); cl != nil {
+			launches = append(launches, launch{g, cl})
 			continue
 		}
+		for _, t := range c.goTargets(g) {
+			launches = append(launches, launch{g, t})
+		}
+	}
+	for _, l := range launches {
+		g, target := l.g, l.target
 		n++
 		key := fmt.Sprintf("%s:go(%s)", g.Parent().Name(), target.Name())
 		hasRecover := deferredRecover(target)
